@@ -2,12 +2,12 @@
    Line forms (harness/c13/main.go); values use the transport encoding of common/Sexp.v:
      (explode S I) (implode A I) (b64 S I) (b64d S I) (uri S I) (urid S I)
      (split SEP S I) (join SEP A I) (ltrimstr P S I) (rtrimstr P S I)
-     (getpath V P I) (setpath V P X I) (paths V I)
+     (getpath V P I) (setpath V P X I) (paths V I) (pathdd V I)
      (to_entries V I) (from_entries V I) (with_entries V I) (tostream V I) (fromstream EVS I)
-     (replay EVS I) (gmtime T I) (mktime A I)
+     (replay EVS I) (gmtime T I) (mktime A I) (todate T I) (fromdate S I) (strptime S I)
    I = what the implementation returned: a value or (err <hex message>). *)
 From Coq Require Import List ZArith NArith Bool String.
-From Verif Require Import common.Sexp c13.Utf8 c13.Codec c13.Jv c13.Time.
+From Verif Require Import common.Sexp c13.Utf8 c13.Codec c13.Jv c13.Time c13.Date.
 Import ListNotations.
 Open Scope Z_scope.
 
@@ -119,7 +119,8 @@ Definition run1 (k : sexp) (args : list jv) : res jv :=
     match args with [JStr p; JStr s] => ROk (JStr (rtrimstr p s)) | _ => RUnsup end
   else if atom_is "getpath" k then match args with [v; JArr p] => getpath p v | _ => RUnsup end
   else if atom_is "setpath" k then match args with [v; JArr p; x] => setpath p x v | _ => RUnsup end
-  else if atom_is "paths" k then match args with [v] => ROk (JArr (map JArr (paths v))) | _ => RUnsup end
+  else if atom_is "paths" k then match args with [v] => ROk (JArr (map JArr (paths_jq v))) | _ => RUnsup end
+  else if atom_is "pathdd" k then match args with [v] => ROk (JArr (map JArr (path_dotdot v))) | _ => RUnsup end
   else if atom_is "to_entries" k then match args with [v] => to_entries v | _ => RUnsup end
   else if atom_is "from_entries" k then match args with [v] => from_entries v | _ => RUnsup end
   else if atom_is "with_entries" k then match args with [v] => with_entries_id v | _ => RUnsup end
@@ -138,6 +139,9 @@ Definition run1 (k : sexp) (args : list jv) : res jv :=
     | [JArr l] => match dec_events l with Some evs => replay JNull (leaves evs) | None => RUnsup end
     | _ => RUnsup
     end
+  else if atom_is "todate" k then match args with [JInt t] => todate t | _ => RUnsup end
+  else if atom_is "fromdate" k then match args with [JStr s] => fromdate s | _ => RUnsup end
+  else if atom_is "strptime" k then match args with [JStr s] => strptime s | _ => RUnsup end
   else if atom_is "gmtime" k then match args with [JInt t] => gmtime t | _ => RUnsup end
   else if atom_is "mktime" k then match args with [v] => mktime v | _ => RUnsup end
   else RUnsup.
